@@ -57,16 +57,17 @@ type c08 struct {
 }
 
 var (
-	c08pPong        = sim.RegStat("probe:c08-ping-answered")
-	c08pPingClosed  = sim.RegStat("probe:c08-ping-after-local-close")
-	c08pPeerClose   = sim.RegStat("probe:c08-peer-close-consumed")
-	c08pInvClose    = sim.RegStat("probe:c08-invalid-close-consumed")
-	c08pLocalClose  = sim.RegStat("probe:c08-local-close")
-	c08pAcked       = sim.RegStat("probe:c08-close-handshake-completed-we-started")
-	c08pViolClosed  = sim.RegStat("probe:c08-violation-after-local-close")
-	c08pEOF         = sim.RegStat("probe:c08-unexpected-eof-1006")
-	c08pWriteRefuse = sim.RegStat("probe:c08-write-refused-after-close")
-	c08pReadAfter   = sim.RegStat("probe:c08-read-after-closing-handshake")
+	c08pPong          = sim.RegStat("probe:c08-ping-answered")
+	c08pPingClosed    = sim.RegStat("probe:c08-ping-after-local-close")
+	c08pPeerClose     = sim.RegStat("probe:c08-peer-close-consumed")
+	c08pInvClose      = sim.RegStat("probe:c08-invalid-close-consumed")
+	c08pCloseInFlight = sim.RegStat("probe:c08-asyncclose-still-in-flight-when-the-next-call-is-made")
+	c08pLocalClose    = sim.RegStat("probe:c08-local-close")
+	c08pAcked         = sim.RegStat("probe:c08-close-handshake-completed-we-started")
+	c08pViolClosed    = sim.RegStat("probe:c08-violation-after-local-close")
+	c08pEOF           = sim.RegStat("probe:c08-unexpected-eof-1006")
+	c08pWriteRefuse   = sim.RegStat("probe:c08-write-refused-after-close")
+	c08pReadAfter     = sim.RegStat("probe:c08-read-after-closing-handshake")
 )
 
 func (d *c08) checkState(where string) {
@@ -417,20 +418,45 @@ func (d *c08) localClose(async bool) {
 	c, ws, w := d.c, d.ws, d.w
 	code := w.Pick(1000, 1001, 3000)
 	var err error
+	wasActive := d.state == msActive
 	if async {
 		done := false
 		ws.AsyncClose(websocket.CloseCode(code), "done", func(e error) { err, done = e, true })
+		if wasActive {
+			// the closing handshake has been started, whether or not the Close frame has left yet
+			d.state = msClosedByUs
+			d.expect = append(d.expect, wsFrame{Fin: true, Opcode: wsClose, Payload: wsClosePayload(code, "done")})
+			d.closes++
+		}
+		if !done && wasActive && !d.dead {
+			// the Close frame is still being written (send buffer full, transport completing later): the
+			// stage reached is "closed by us" already - state, refusal of writes and of a second Close
+			w.Stat(c08pCloseInFlight)
+			d.checkState("while AsyncClose is in flight")
+			switch w.Choose(3) {
+			case 1:
+				d.write(w.Choose(3))
+			case 2:
+				again, called := error(nil), false
+				ws.AsyncClose(websocket.CloseNormal, "again", func(e error) { again, called = e, true })
+				if !called || again == nil {
+					c.Failf("second-close-accepted/"+msNames[d.state], "a second AsyncClose while the first one's frame was still being written was accepted (callback invoked at once: %v, error %v)", called, again)
+				}
+			}
+		}
 		if !d.waitFor(&done) {
 			c.Failf("close-never-completes", "AsyncClose: callback never invoked")
 		}
 	} else {
 		err = ws.Close(websocket.CloseCode(code), "done")
+		if wasActive {
+			d.state = msClosedByUs
+			d.expect = append(d.expect, wsFrame{Fin: true, Opcode: wsClose, Payload: wsClosePayload(code, "done")})
+			d.closes++
+		}
 	}
-	if d.state == msActive {
+	if wasActive {
 		w.Stat(c08pLocalClose)
-		d.state = msClosedByUs
-		d.expect = append(d.expect, wsFrame{Fin: true, Opcode: wsClose, Payload: wsClosePayload(code, "done")})
-		d.closes++
 		if err != nil && !d.dead {
 			c.Failf("close-failed-while-open", "Close on an open connection failed: %v", err)
 		}
